@@ -100,7 +100,8 @@ class Side(object):
 
 class Pair(object):
     def __init__(self, service_a, service_b, config_a=None, config_b=None, manual=False, compress=True,
-                 autoserve=True, patch_time=True, transport="sim", script=None, serve_eof=False, serve_all_sides=()):
+                 autoserve=True, patch_time=True, transport="sim", script=None, serve_eof=False, serve_all_sides=(),
+                 prepare=None):
         self.sched = s = sim.make_sched()
         self.undo_time = sim.patch_time(s) if patch_time else (lambda: None)
         self.autoserve = autoserve
@@ -123,6 +124,10 @@ class Pair(object):
             cb = service_b._connect(Channel(sb, compress=compress), config_b or {})
             sim.simulate_conn_locks(s, ca, "A")
             sim.simulate_conn_locks(s, cb, "B")
+        if prepare is not None:
+            # instrumentation that must be in place before a side's thread makes its first call (a serve_all() side calls at once)
+            prepare("A", ca)
+            prepare("B", cb)
         self.net = net
         self.a = Side(self, "A", ca, sa)
         self.b = Side(self, "B", cb, sb)
